@@ -115,6 +115,28 @@ CopyField(h, f, h2) ==
     /\ LET st == [store EXCEPT ![h][f] = store[h2][f]]
        IN store' = st /\ UNCHANGED <<live, nadv>> /\ Log("copyfield", h, f, 0, 0, h2, st, live)
 
+\* the compound setter AddValidator: every per-validator list of the fork (the fields whose ops contain
+\* "addvalidator": validators, balances, and from altair on both participation lists and the inactivity scores) grows by
+\* exactly one element; the balance is the given value, the other new elements are determined by the call (the replayer
+\* checks them against the arguments); nothing else changes
+AVFields == {f \in FIdx : Has(f, "addvalidator")}
+AddValidator(h, v) ==
+    /\ AVFields # {}
+    /\ \A f \in AVFields : IsExplicit(store[h][f]) => Len(store[h][f].s) < Fields[f].cap
+    /\ LET st == [store EXCEPT ![h] = [f \in FIdx |->
+                    IF f \notin AVFields THEN store[h][f]
+                    ELSE IF ~IsExplicit(store[h][f]) THEN Opaque(Fresh(Step, f, 0))
+                    ELSE Explicit(Append(store[h][f].s,
+                                         IF Fields[f].name = "balances" THEN v ELSE Fresh(Step, f, Len(store[h][f].s) + 1)))]]
+       IN store' = st /\ UNCHANGED <<live, nadv>> /\ Log("addvalidator", h, 0, 0, v, "", st, live)
+
+\* the caller overwrites the memory of every argument it passed to earlier steps and of every value earlier getters
+\* returned: a state stores VALUES, so this is a no-op on every handle
+ArgScribbled ==
+    /\ Len(hist) > 0 /\ hist[Len(hist)].op # "scribble"
+    /\ UNCHANGED <<store, live, nadv>>
+    /\ Log("scribble", HandleSeq[1], 0, 0, 0, "", store, live)
+
 \* CopyState + cloned context
 Copy(h, h2) ==
     /\ h2 # h
@@ -130,7 +152,8 @@ Advance(h) ==
                     ELSE Explicit([i \in 1..Fields[f].len |-> Fresh(Step, f, i)])]]
        IN store' = st /\ nadv' = nadv + 1 /\ UNCHANGED live /\ Log("advance", h, 0, 0, 0, "", st, live)
 
-Kinds == {"set", "setall", "load", "setelem", "touch", "append", "reset", "fill", "bump", "copyfield", "copy", "advance"}
+Kinds == {"set", "setall", "load", "setelem", "touch", "append", "reset", "fill", "bump", "copyfield", "copy", "advance",
+          "addvalidator", "scribble"}
 Sized(f, n) == IF n = 3 THEN Fields[f].cap ELSE IF n = 2 THEN Fields[f].len ELSE n
 
 \* all instances of one kind of step
@@ -149,6 +172,8 @@ DoKind(k) ==
            [] k = "copyfield" -> \E f \in FIdx, h2 \in Handles : CopyField(h, f, h2)
            [] k = "copy"      -> \E h2 \in Handles : Copy(h, h2)
            [] k = "advance"   -> Advance(h)
+           [] k = "addvalidator" -> \E v \in Vals : AddValidator(h, v)
+           [] k = "scribble"  -> h = HandleSeq[1] /\ ArgScribbled
 
 Next == \E k \in Kinds : DoKind(k)
 
@@ -170,7 +195,7 @@ TypeOK == /\ live \subseteq Handles /\ HandleSeq[1] \in live
 
 \* the step just logged may have touched exactly ...
 MayChange(e, h, f) ==
-    \/ e.h = h /\ (e.fi = f \/ e.op = "advance")
+    \/ e.op # "scribble" /\ e.h = h /\ (e.fi = f \/ e.op = "advance" \/ (e.op = "addvalidator" /\ Has(f, "addvalidator")))
     \/ e.op = "copy" /\ e.h2 = h
 \* accessors are exact and copies are independent: nothing outside the named (handle, field) changes
 Frame == hist' # hist =>
